@@ -256,6 +256,28 @@ theorem setVersion_isolated (cs : Classes) (fuel c : Nat) (v : Key) (n d : Nat)
         simp only [hp] at h
         exact ih p h.2
 
+/-- the code's selection and the order-free statement are the same function -/
+theorem setVersion_eq_specSelect (cs : Classes) (fuel c : Nat) (v : Key) :
+    setVersion cs fuel c v = specSelect cs fuel c v := by
+  simp only [setVersion, specSelect, closest_eq_greatestBelow]
+  rfl
+
+/-- **History theorem**: for every class table, every history of selections on
+any classes (parent, child, sibling, in any interleaving) and every set of
+observed classes, the model's trace of active lists is the trace the
+statement prescribes. -/
+theorem trace_eq (fuel : Nat) (watch : List Nat) (cs : Classes) (ops : List (Nat × Key)) :
+    specTrace setVersion fuel watch cs ops = specTrace specSelect fuel watch cs ops := by
+  induction ops generalizing cs with
+  | nil => rfl
+  | cons op ops ih =>
+    obtain ⟨c, v⟩ := op
+    simp only [specTrace, setVersion_eq_specSelect, ih]
+
+theorem main (cs : Classes) (fuel : Nat) (watch : List Nat) (ops : List (Nat × Key)) :
+    holdsTrace cs fuel watch ops (specTrace setVersion fuel watch cs ops) = true := by
+  simp [holdsTrace, trace_eq]
+
 /-- non-vacuity: keys declared out of order, requests below / between / equal /
 above; `v10 < v2` in string order -/
 example :
